@@ -276,6 +276,15 @@ def run(chk: core.Check) -> None:
                             continue
                         if const_new is not None:
                             reqs.append((f"rp replace {enc_str(const_new)} {spans_w} | {pt.enc_tokens(t0[1:-1])}", drop_empty("ok " + pt.enc_tokens(t1[1:-1])), case))
+                        else:
+                            # the template as CPython's re parses it: literal pieces and references to the whole match (OdfModel/Para/Replace.replaceAllT)
+                            import re._parser as _sp
+
+                            pieces = _sp.parse_template(new, rx)
+                            if all(isinstance(x, str) or x == 0 for x in pieces):
+                                tpl = ",".join("G" if x == 0 else enc_str(x) for x in pieces if x != "")
+                                reqs.append((f"rp replacet {tpl} {spans_w} | {pt.enc_tokens(t0[1:-1])}", drop_empty("ok " + pt.enc_tokens(t1[1:-1])), case))
+                                chk.count("replacement", "template sent to the model (replaceAllT)")
                     else:
                         # expected characters, white-space elements expanded, in order
                         it = iter(want_nodes)
